@@ -177,7 +177,7 @@ var c06Opts = synGenOpts{MaxNT: 4, MaxT: 4, MaxAlts: 3, MaxBody: 3, PEmpty: 0.15
 
 func checkC06(c *Ctx) {
 	c.Level = "model_checking"
-	c.Set("rule", "(1) MC_LRParse: for curated, exhaustive-tiny and random small reduced grammars and ALL token strings up to the bound, a failing parse names the first token that makes the input no prefix of a sentence (LR-independent prefix oracle), no action ran with that token as look-ahead, and the expected set is exactly the set of viable continuations; (2) LRProduct shows the real tables are the canonical ones; (3) real failing Parse runs are validated against the driver model: the error carries the very token object (identity, type), the exact expected set, and no action call follows the Scan that delivered it. distinct_nontrivial counts distinct (grammar, non-sentence) runs validated")
+	c.Set("rule", "(1) MC_LRParse: for curated, exhaustive-tiny and random small reduced grammars and ALL token strings up to the bound, a failing parse names the first token that makes the input no prefix of a sentence (LR-independent prefix oracle), no action ran with that token as look-ahead, and the expected set is exactly the set of viable continuations; (2) LRProduct shows the real tables are the canonical ones; (3) real failing Parse runs are validated against the driver model: the error carries the very token object (identity, type), the exact expected set, and no action call follows the Scan that delivered it. (4) ErrMsg.tla: the text rendered from an error value (Error(), String(), Pos.String()) shows every expected terminal once and in order, the position and the lexeme; the table of texts TLC computes is replayed on the generated errors and token packages. distinct_nontrivial counts distinct (grammar, non-sentence) runs validated")
 	c.Assume("domain: conflict-free grammars without error alternatives whose nonterminals are all productive (the generator removes unproductive ones)")
 	rng := rand.New(rand.NewSource(c.Seed))
 	o := c06Opts
@@ -240,6 +240,8 @@ func checkC06(c *Ctx) {
 			c.Sample(map[string]any{"grammar": cs.Text, "run": describeSynEvents(hs[len(hs)-1])})
 		}
 	}
+	// (4) what the user reads: the text of the error shows what the value carries
+	c.errMsgLeg()
 }
 
 var c03Opts = synGenOpts{MaxNT: 4, MaxT: 4, MaxAlts: 3, MaxBody: 3, PEmpty: 0.2, PLit: 0.3, Actions: true, POptRun: 0.3}
